@@ -284,8 +284,21 @@ func wholeRun(o *kit.Out, r *kit.Rand, idx int, m *metrics.Metrics) {
 			}
 			if failEvery > 0 && n%failEvery == 0 {
 				failed.Add(1)
-				t.Fail()
-				linger()
+				switch (n / failEvery) % 4 { // a failed iteration is a failed iteration however it fails
+				case 0:
+					t.Fail()
+					linger()
+				case 1:
+					linger()
+					t.FailNow()
+				case 2:
+					linger()
+					panic("iteration panicked")
+				default:
+					linger()
+					var m map[string]int
+					m["x"] = 1
+				}
 				return
 			}
 			passed.Add(1)
